@@ -218,3 +218,77 @@ def location_spelling_bounded(ctx):
                  budget="1 project x 3 locations (one named like its own `vendor/` ignore pattern, one with a space) x directory / "
                         "explicit absolute files, + absolute vs relative spelling with a relatively spelled --config",
                  cases=cases, note=f"{cases} runs agree up to path spelling")]
+
+
+# =================================================================== key coherence of per-file tables (structural)
+@custom("c09-path-keyed-tables", props=["C09", "C04"])
+def path_keyed_tables(ctx):
+    """Per-file data is kept in dict attributes keyed by a path spelling (inline-ignore ranges, cached file contents, memo of
+    ignore verdicts, ...). The key under which an entry is STORED and the key under which it is LOOKED UP must be the same
+    function of the path: every key expression built from a path-like parameter must be `str(p)` / `str(Path(p))` / `p`
+    (pathlib's spelling, which keeps `..`, and which is what violations carry in file_path). Any other normaliser
+    (os.path.normpath / abspath / realpath, .resolve(), .as_posix(), lower() ...) on one side only breaks the coherence
+    for some spellings. One obligation per table whose keys are not all of the allowed shapes."""
+    import ast
+    from contracts.c08_frames import Index, _chain
+    idx = Index(ctx["repo"])
+    allowed = {"str(P)", "str(Path(P))", "P"}
+    tables, written = {}, set()
+    for ck, cd in idx.classes.items():
+        for fn in [f for f in cd.body if isinstance(f, (ast.FunctionDef, ast.AsyncFunctionDef))]:
+            params = {a.arg for a in fn.args.args + fn.args.kwonlyargs if "path" in a.arg.lower() or a.arg in ("file", "filename")}
+            if not params:
+                continue
+            local = {}
+            for n in ast.walk(fn):  # one level of local aliases: key = <expr over a path parameter>
+                if isinstance(n, ast.Assign) and len(n.targets) == 1 and isinstance(n.targets[0], ast.Name):
+                    if any(isinstance(x, ast.Name) and x.id in params for x in ast.walk(n.value)):
+                        local[n.targets[0].id] = n.value
+
+            def shape(e):
+                if isinstance(e, ast.Name) and e.id in local:
+                    e = local[e.id]
+                if not any(isinstance(x, ast.Name) and x.id in params for x in ast.walk(e)):
+                    return None
+                txt = ast.unparse(e)
+                for p_ in sorted(params, key=len, reverse=True):
+                    txt = txt.replace(p_, "P")
+                return txt
+            for n in ast.walk(fn):
+                key = tab = None
+                if isinstance(n, ast.Subscript):
+                    c = _chain(n.value)
+                    if c and c[0] == "self" and len(c) == 2:
+                        tab, key = c[1], n.slice
+                elif isinstance(n, ast.Call) and isinstance(n.func, ast.Attribute) and n.func.attr in ("get", "pop", "setdefault") and n.args:
+                    c = _chain(n.func.value)
+                    if c and c[0] == "self" and len(c) == 2:
+                        tab, key = c[1], n.args[0]
+                elif isinstance(n, ast.Compare) and len(n.ops) == 1 and isinstance(n.ops[0], (ast.In, ast.NotIn)):
+                    c = _chain(n.comparators[0])
+                    if c and c[0] == "self" and len(c) == 2:
+                        tab, key = c[1], n.left
+                if tab is None:
+                    continue
+                sh = shape(key)
+                if sh is not None:
+                    tables.setdefault((ck, tab), []).append((sh, f"{fn.name}:{n.lineno}"))
+                    if (isinstance(n, ast.Subscript) and isinstance(n.ctx, (ast.Store, ast.Del))) or \
+                            (isinstance(n, ast.Call) and n.func.attr in ("setdefault", "pop")):
+                        written.add((ck, tab))
+    out = []
+    for (ck, tab), uses in sorted(tables.items()):
+        if (ck, tab) not in written:
+            continue  # a constant lookup table (never stored into through a path key) is not per-file data
+        bad = sorted({(sh, where) for sh, where in uses if sh not in allowed})
+        name = f"custom:c09-path-keyed-tables/{ck[0]}::{ck[1]}.{tab}"
+        if bad:
+            out.append(dict(name=name, kind="frame", verdict="refuted", carries=True, witness_confirmed=False, solver="ast-scan",
+                            note=f"path-keyed table: keys {sorted({sh for sh, _ in uses})}; not pathlib's spelling: {bad[:4]}"))
+        else:
+            out.append(dict(name=name, kind="frame", verdict="discharged", carries=True, solver="ast-scan", ms=0.0,
+                            note=f"all keys are pathlib's spelling of the path: {sorted({sh for sh, _ in uses})} at {[w for _, w in uses][:6]}"))
+    if not out:
+        out.append(dict(name="custom:c09-path-keyed-tables/none", kind="frame", verdict="unknown", carries=True,
+                        note="no path-keyed table found: the scan lost its subject"))
+    return out
